@@ -122,6 +122,20 @@ def draw(c, rng):
         if c["listin"]:
             inp["other"] = [f[:, rng.permutation(R)].copy() for f in ref]
     inp["fs"] = fs
+    inp["aliased"] = []
+    if c.get("alias") and kind in ("cp", "tucker"):
+        # ALIASING: two equal-shaped factors are the SAME array object (mode products / normalisations must not write through it)
+        shp = [f.shape for f in fs]
+        pairs = [(i, j) for i in range(len(shp)) for j in range(i + 1, len(shp)) if shp[i] == shp[j]]
+        if pairs:
+            i, j = pairs[int(rng.integers(len(pairs)))]
+            fs[j] = fs[i].copy()
+            inp["aliased"] = [i, j]
+    if c.get("vals", "plain") != "plain" and kind in ("cp", "tucker") and not inp["aliased"]:
+        k = int(rng.integers(len(fs)))
+        rr = int(rng.integers(fs[k].shape[1]))
+        fs[k][int(rng.integers(fs[k].shape[0])), rr] = 0.0
+        inp["zsub"] = {"k": k, "r": rr, "sub": c["vals"] == "subnormal"}
     if c.get("mag", 0):
         inp["mag"] = lf.draw_mag(kind, inp, int(c["mag"]), rng)
     if kind == "slices":
@@ -272,6 +286,10 @@ def _execute(c, inp):
     import tensorly as tl
     # a negative spelling of the mode means the same mode
     tmode = c["mode"] - len(c["shape"]) if c.get("negmode") else c["mode"]
+    cf = c.get("callform", "plain")
+
+    def CALL(fn, name, first, **kw):          # a published transform, called in the configured call form (frozen signature table)
+        return lf.call(fn, name, cf, first, **kw)
     from tensorly import cp_tensor, tucker_tensor, parafac2_tensor, tt_tensor, preprocessing
     op, kind, how = c["op"], c["kind"], c["how"]
     out = blank_out()
@@ -283,7 +301,7 @@ def _execute(c, inp):
                     res = cp_tensor.CPTensor(ft)
                     res.normalize()
                 else:
-                    res = cp_tensor.cp_normalize(ft)
+                    res = CALL(cp_tensor.cp_normalize, "cp_normalize", ft)
                 w, fs = res
                 _dense(out, "cp", (w, fs))
                 _colnorms(out, fs)
@@ -292,12 +310,12 @@ def _execute(c, inp):
                     res = tucker_tensor.TuckerTensor(ft)
                     res.normalize()
                 else:
-                    res = tucker_tensor.tucker_normalize(ft)
+                    res = CALL(tucker_tensor.tucker_normalize, "tucker_normalize", ft)
                 core, fs = res
                 _dense(out, "tucker", (core, fs))
                 _colnorms(out, fs)
             else:
-                res = parafac2_tensor.parafac2_normalise(ft)
+                res = CALL(parafac2_tensor.parafac2_normalise, "parafac2_normalise", ft)
                 w, fs, ps = res
                 _dense(out, "p2", (w, fs, ps))
                 _colnorms(out, fs)
@@ -305,7 +323,7 @@ def _execute(c, inp):
             ft = lf.fresh("cp", inp)
             if how == "object":
                 ft = cp_tensor.CPTensor(ft)
-            w, fs = cp_tensor.cp_flip_sign(ft, mode=tmode)
+            w, fs = CALL(cp_tensor.cp_flip_sign, "cp_flip_sign", ft, mode=tmode)
             _dense(out, "cp", (w, fs))
             # signs only (sums of integers times one power of two are exact; a tiny negative value must not round to 0)
             wm, ok = qi(float(np.sign(np.min(w))), SUMM_SCALE)
@@ -323,10 +341,10 @@ def _execute(c, inp):
             T = cp_tensor.CPTensor(lf.fresh("cp", inp))
             if c["listin"]:
                 other = cp_tensor.CPTensor((np.ones(len(inp["w"])), [f.copy() for f in inp["other"]]))
-                res, perms = cp_tensor.cp_permute_factors(ref, [other, T])
+                res, perms = CALL(cp_tensor.cp_permute_factors, "cp_permute_factors", ref, tensors_to_permute=[other, T])
                 res, perm = res[1], perms[1]
             else:
-                res, perms = cp_tensor.cp_permute_factors(cp_tensor.CPTensor(ref), T)
+                res, perms = CALL(cp_tensor.cp_permute_factors, "cp_permute_factors", cp_tensor.CPTensor(ref), tensors_to_permute=T)
                 perm = perms[0]
             w, fs = res
             ex = True
@@ -346,7 +364,7 @@ def _execute(c, inp):
                 cores = [(g + 1j * g[::-1]).astype(dt) if dt == "complex128" else g.astype(dt) for g, dt in zip(cores, c["cdtypes"])]
             if how == "object" and kind == "tt":
                 cores = tt_tensor.TTTensor(cores)
-            res = tt_tensor.pad_tt_rank(cores, n_padding=c["npad"], pad_boundaries=c["padb"])
+            res = CALL(tt_tensor.pad_tt_rank, "pad_tt_rank", cores, n_padding=c["npad"], pad_boundaries=c["padb"])
             ex, pj = True, []
             mg = inp.get("mag", {}).get("e", 0)
             out["pdtypes"] = [str(np.asarray(g).dtype) for g in res]
@@ -376,11 +394,11 @@ def _execute(c, inp):
                     operand = operand / 2.0
                     mult = 2.0
             if how == "tuple":
-                res = fn(ft, operand, tmode, keep_dim=c["keep"], copy=c["copy"])
+                res = CALL(fn, op, ft, matrix_or_vector=operand, mode=tmode, keep_dim=c["keep"], copy=c["copy"])
             elif how == "object":
-                res = fn(cls(ft), operand, tmode, keep_dim=c["keep"], copy=c["copy"])
+                res = CALL(fn, op, cls(ft), matrix_or_vector=operand, mode=tmode, keep_dim=c["keep"], copy=c["copy"])
             else:
-                res = cls(ft).mode_dot(operand, tmode, keep_dim=c["keep"], copy=c["copy"])
+                res = CALL(cls(ft).mode_dot, cls.__name__ + ".mode_dot", operand, mode=tmode, keep_dim=c["keep"], copy=c["copy"])
             a, fs = res
             if k == "cp" and not _cp_ok(a, fs):
                 out["malformed"] = True
@@ -392,7 +410,7 @@ def _execute(c, inp):
             obj = cp_tensor.CPTensor(lf.fresh("cp", inp))
             steps = []
             for st in c["steps"]:
-                rec = {"raised": False, "exc": "", "dense": {"shape": [0], "q": [], "fin": False}, "cn": [], "cnfin": False}
+                rec = {"raised": False, "accepted": False, "exc": "", "dense": {"shape": [0], "q": [], "fin": False}, "cn": [], "cnfin": False}
                 try:
                     if st == "N":
                         obj.normalize()
@@ -404,6 +422,14 @@ def _execute(c, inp):
                         obj.factors[am] = 2.0 * np.asarray(obj.factors[am])     # a new array, not through cp[1] = ...
                     elif st == "F":
                         obj = cp_tensor.cp_flip_sign(obj)
+                    elif st == "X":
+                        # a FAILING call on the same object (operand of the wrong size): the caller catches it and goes on
+                        try:
+                            cp_tensor.cp_mode_dot(obj, np.ones((2, c["shape"][c["mode"]] + 3)), c["mode"], copy=False)
+                            rec["exc"] = "X: the mismatched operand was accepted"
+                            rec["accepted"] = True
+                        except Exception:
+                            rec["accepted"] = False
                     w, fs = obj
                     tmp = blank_out()
                     _dense(tmp, "cp", (w, fs))
@@ -420,7 +446,7 @@ def _execute(c, inp):
             ft = lf.fresh("cp", inp)
             if how == "object":
                 ft = cp_tensor.CPTensor(ft)
-            res = parafac2_tensor.Parafac2Tensor.from_CPTensor(ft)
+            res = CALL(parafac2_tensor.Parafac2Tensor.from_CPTensor, "from_CPTensor", ft)
             w, fs, ps = res
             _dense(out, "p2", (w, fs, ps))
             _orth(out, ps)
@@ -439,7 +465,8 @@ def _execute(c, inp):
             out["slices_lo"] = [jt(x) for x in last]
             thr = {0: 0.0, 1: 1e-6, 2: 2.0 ** -(c["rank"][0] - 1)}[c["thr"]]      # 2: the smallest kept ratio, exactly
             mr = None if c["maxrank"] == 0 else int(c["maxrank"])
-            scores, loadings = preprocessing.svd_compress_tensor_slices([x.copy() for x in slices], compression_threshold=thr, max_rank=mr)
+            scores, loadings = CALL(preprocessing.svd_compress_tensor_slices, "svd_compress_tensor_slices", [x.copy() for x in slices],
+                                 compression_threshold=thr, max_rank=mr)
             rec = [np.asarray(S) if U is None else np.asarray(U) @ np.asarray(S) for S, U in zip(scores, loadings)]
             out["recon"] = [jq(x, DENSE_SCALE) for x in rec]
             if gexp:
@@ -450,14 +477,15 @@ def _execute(c, inp):
             out["slices"] = [jt(s) for s in slices]
             thr = 0.0 if c["thr"] == 0 else 1e-6
             mr = None if c["maxrank"] == 0 else int(c["maxrank"])
-            scores, loadings = preprocessing.svd_compress_tensor_slices([s.copy() for s in slices], compression_threshold=thr, max_rank=mr)
+            scores, loadings = CALL(preprocessing.svd_compress_tensor_slices, "svd_compress_tensor_slices", [s.copy() for s in slices],
+                                 compression_threshold=thr, max_rank=mr)
             recon, cps = [], []
             for S, U, P in zip(scores, loadings, ps):
                 recon.append(jq(S if U is None else np.asarray(U) @ np.asarray(S), DENSE_SCALE))
                 cps.append(P if U is None else np.asarray(U).T @ P)
             out["recon"] = recon
             comp = parafac2_tensor.Parafac2Tensor((w, [A, B, C], cps))       # a decomposition of the compressed slices
-            dec = preprocessing.svd_decompress_parafac2_tensor(comp, loadings)
+            dec = CALL(preprocessing.svd_decompress_parafac2_tensor, "svd_decompress_parafac2_tensor", comp, loading_matrices=loadings)
             w2, fs2, ps2 = dec
             _dense(out, "p2", (w2, fs2, ps2))
             _orth(out, ps2)
